@@ -219,6 +219,30 @@ def _iter_sources(node: ast.AST):
                 yield g.iter, n
 
 
+def _foreign_guards(f: FuncInfo, owner: ast.AST, zp: str, attr: str) -> List[str]:
+    """tests of if-statements enclosing `owner` that do not speak about <zp>.<attr> (a traversal of X guarded by a test on Y skips members)"""
+    out: List[str] = []
+
+    def walk(cur, guards):
+        if cur is owner:
+            out.extend(guards)
+            return True
+        for ch in ast.iter_child_nodes(cur):
+            if isinstance(ch, (ast.FunctionDef, ast.AsyncFunctionDef, ast.ClassDef)):
+                continue
+            g2 = guards
+            if isinstance(cur, ast.If) and ch is not cur.test:
+                mentions = any(isinstance(x, ast.Attribute) and x.attr == attr and isinstance(x.value, ast.Name) and x.value.id == zp for x in ast.walk(cur.test))
+                other = any(isinstance(x, ast.Attribute) and isinstance(x.value, ast.Name) and x.value.id == zp and x.attr != attr for x in ast.walk(cur.test))
+                if other or not mentions:
+                    g2 = guards + [ast.unparse(cur.test)]
+            if walk(ch, g2):
+                return True
+        return False
+    walk(f.node, [])
+    return out
+
+
 def _visits_all(r: Resolver, f: FuncInfo, entry: FuncInfo) -> Tuple[bool, bool, bool]:
     zp = f.pos_params[0] if f.pos_params else None
     it_t = it_s = rec = False
@@ -226,9 +250,9 @@ def _visits_all(r: Resolver, f: FuncInfo, entry: FuncInfo) -> Tuple[bool, bool, 
         if isinstance(it, ast.Call) and isinstance(it.func, ast.Attribute) and it.func.attr in ("values", "items"):
             base = it.func.value
             if isinstance(base, ast.Attribute) and isinstance(base.value, ast.Name) and base.value.id == zp:
-                if base.attr == "targets":
+                if base.attr == "targets" and not _foreign_guards(f, owner, zp, "targets"):
                     it_t = True
-                if base.attr == "subzones":
+                if base.attr == "subzones" and not _foreign_guards(f, owner, zp, "subzones"):
                     it_s = True
                     for c in ast.walk(owner):
                         if isinstance(c, ast.Call) and isinstance(c.func, ast.Name) and c.func.id in (f.name, entry.name):
